@@ -83,6 +83,7 @@ type Node struct {
 	Receiver *receiverhandler.Handler
 	Endpoint *core.Endpoint
 	Dir      string
+	Peers    *staticpeers.Service
 }
 
 // Cluster is a set of in-process instances joined by a Network.
@@ -173,6 +174,7 @@ func NewClusterWithPeers(o ClusterOpts, peerIDs []uint64) (*Cluster, error) {
 			return nil, err
 		}
 		n.Process = proc
+		n.Peers = ps
 		if err := st.SetProcess(proc); err != nil {
 			return nil, err
 		}
